@@ -791,6 +791,19 @@ impl<'a> Gen<'a> {
             if !vars.is_empty() && self.r.chance(600, 1000) {
                 return self.r.pick(&vars).clone();
             }
+            if self.cfg.hazards > 0 && self.cfg.clash_names && self.r.chance(250, 1000) {
+                // a variable that may stay unassigned and carries the name of a device output
+                let scope = self.vars_in_scope();
+                let pool: Vec<String> = self
+                    .sigs
+                    .iter()
+                    .filter(|s| s.is_output() && is_identlike(&s.name) && !scope.contains(&s.name))
+                    .map(|s| s.name.clone())
+                    .collect();
+                if !pool.is_empty() {
+                    return self.r.pick(&pool).clone();
+                }
+            }
             return self.fresh_name();
         }
         for _ in 0..20 {
@@ -1235,4 +1248,70 @@ pub fn generate(r: &mut Prng, cfg: &GenCfg) -> Case {
         layout_opts,
         rng_seed,
     }
+}
+
+
+/// Plant the conjunction "variable in scope, never assigned on the executed path, named like a
+/// device output": `while(0) let Q = 1; end while` followed by a read of `Q` (in a row entry of
+/// an input column where one exists, otherwise in a `let`). Returns the name used.
+pub fn plant_unassigned_clash(case: &mut Case, r: &mut Prng) -> Option<String> {
+    let mut used: Vec<String> = vec![];
+    walk_items(&case.program.items, 0, &mut |it, _| match it {
+        Item::Let(n, _) | Item::Declare(n, _) | Item::Loop(n, _, _) => used.push(n.clone()),
+        _ => {}
+    });
+    let pool: Vec<String> = case
+        .signals
+        .iter()
+        .filter(|s| s.is_output() && is_identlike(&s.name) && !used.contains(&s.name) && s.name != "n")
+        .map(|s| s.name.clone())
+        .collect();
+    if pool.is_empty() {
+        return None;
+    }
+    let q = r.pick(&pool).clone();
+    let is_input_col: Vec<bool> = case
+        .program
+        .header
+        .iter()
+        .map(|h| case.signals.iter().any(|s| &s.name == h && s.is_input()))
+        .collect();
+    let guard = Item::While(
+        Expr::Num(0, Radix::Dec),
+        vec![Item::Let(q.clone(), Expr::Num(1, Radix::Dec))],
+    );
+    // a top-level row with a literal in an input column
+    let mut target = None;
+    for (i, it) in case.program.items.iter().enumerate() {
+        if let Item::Row(_, es) = it {
+            let mut col = 0;
+            for (k, e) in es.iter().enumerate() {
+                if matches!(e, Entry::Lit(..)) && is_input_col.get(col) == Some(&true) {
+                    target = Some((i, k));
+                    break;
+                }
+                col += e.width();
+            }
+            if target.is_some() {
+                break;
+            }
+        }
+    }
+    match target {
+        Some((i, k)) => {
+            if let Item::Row(_, es) = &mut case.program.items[i] {
+                es[k] = Entry::Paren(Expr::Ident(q.clone()));
+            }
+            let pos = r.below(i + 1);
+            case.program.items.insert(pos, guard);
+        }
+        None => {
+            let n = case.program.items.len();
+            let pos = r.below(n + 1);
+            case.program.items.insert(pos, Item::Let("t_u".into(), Expr::Ident(q.clone())));
+            let pos2 = r.below(pos + 1);
+            case.program.items.insert(pos2, guard);
+        }
+    }
+    Some(q)
 }
